@@ -520,14 +520,15 @@ RAISE_NAMES = sorted(RAISE_CLASSES)
 
 # --------------------------------------------------------------------------- argument forms (round 5)
 
-# every value remap's `trace` keyword accepts ('F' = False: see the finding C08-trace-false-rejected)
-TRACE_FORMS = ['T', 'enter', 'visit', 'exit', 'EX', 'EV', 'lV', 'lEVX', 'sAll', 'empty', 'lempty', 'unk', 'F']
+# every value remap's `trace` keyword accepts ('F' = False: see the finding C08-trace-false-rejected).  Not used: a
+# name other than the three events (silently ignored today; a stricter remap may reject it - not a documented form)
+TRACE_FORMS = ['T', 'enter', 'visit', 'exit', 'EX', 'EV', 'lV', 'lEVX', 'sAll', 'empty', 'lempty', 'F']
 
 
 def trace_value(tok):
     return {'T': True, 'F': False, 'enter': 'enter', 'visit': 'visit', 'exit': 'exit', 'EX': ('enter', 'exit'),
             'EV': ('enter', 'visit'), 'lV': ['visit'], 'lEVX': ['enter', 'visit', 'exit'],
-            'sAll': set(['enter', 'visit', 'exit']), 'empty': (), 'lempty': [], 'unk': 'other'}[tok]
+            'sAll': set(['enter', 'visit', 'exit']), 'empty': (), 'lempty': []}[tok]
 
 
 def describe_form(form):
@@ -879,7 +880,7 @@ class C08(Property):
             'defect (so its correspondence counts); whether research queries / reports the root itself is probed, not '
             'demanded. '
             'Round 5, FIRST in the stream: (a) every public entry point in every argument form it accepts - remap with each '
-            'value of trace (True, False, each event name, tuples / lists / a set of names, (), [], an unknown name; stdout '
+            'value of trace (True, False, each event name, tuples / lists / a set of names, (), []; stdout '
             'captured and ignored) x 8 programs x 8 shapes, visit positional / by keyword / default_visit passed explicitly, '
             'enter=default_enter + exit=default_exit passed explicitly, reraise_visit=True passed explicitly, custom enter x '
             'exit callbacks with tracing on; research with query positional / by keyword / omitted, reraise positional / by '
